@@ -1,61 +1,542 @@
-//! C17 probe (temporary)
+//! C17 — sheet rename, move and duplicate: implementation side of the correspondence (the node
+//! pass + stored-form printer + re-parse, the sheet-list surgery, the validation) and the property
+//! oracle (trees and values before / after the real operation on generated workbooks).
 mod nodeio;
-use ironcalc_base::Model;
-use ironcalc_base::UserModel;
+use nodeio::*;
+use vh_common::*;
 
-fn show(m: &Model, tag: &str) {
-    println!("--- {tag}");
+use ironcalc_base::expressions::lexer::LexerMode;
+use ironcalc_base::expressions::parser::stringify::to_rc_format;
+use ironcalc_base::expressions::parser::{Node, Parser};
+use ironcalc_base::expressions::types::CellReferenceRC;
+use ironcalc_base::language::{get_language, Language};
+use ironcalc_base::locale::{get_locale, Locale};
+use ironcalc_base::{Function, Model, UserModel};
+use serde_json::json;
+use std::collections::{BTreeMap, BTreeSet, HashMap};
+
+const LANGS: [&str; 5] = ["en", "es", "fr", "de", "it"];
+const ROWS: i32 = 6;
+const COLS: i32 = 7;
+
+/// the pool of new names: valid tricky ones, look-alikes, non-ASCII, and invalid ones
+fn name_pool() -> Vec<String> {
+    let mut v: Vec<String> = [
+        "Renamed", "renamed sheet", "It's", "'quoted'", "a!b", "A1", "R1C1", "TRUE", "false", "Sum", "1", "1a", "_x", "x.y",
+        "a b  c", "Ünïcödé", "日本語", "данные", "Σheet", "a&b", "a=b", "a<b>", "a^b", "a%", "a\"b", "#REF!", "@home", "a~b", "a|b",
+        ".lead", "٣", "x,y", "x;y", "a(b)", "{a}", "a+b", "a-b", " lead", "trail ", "ABCDEFGHIJKLMNOPQRSTUVWXYZ12345",
+        "XFD1048576", "RC", "E5", "1E5", "$A$1", "R[1]C", "Ghost", "No Such", "''", "'",
+        // invalid
+        "", "a/b", "a\\b", "a*b", "a?b", "A1:B2", "[x]", "ABCDEFGHIJKLMNOPQRSTUVWXYZ123456",
+    ].iter().map(|s| s.to_string()).collect();
+    v.dedup();
+    v
+}
+
+fn quote(name: &str) -> String { format!("'{}'", name.replace('\'', "''")) }
+
+#[derive(Clone)]
+struct Book {
+    lang: &'static str,
+    locale: &'static str,
+    sheets: Vec<String>,
+    cells: Vec<(u32, i32, i32, String)>,
+    names: Vec<(String, Option<u32>, String)>,
+}
+
+fn build(bk: &Book) -> Result<Model<'static>, String> {
+    let mut m = Model::new_empty("b", bk.locale, "UTC", bk.lang)?;
+    m.rename_sheet_by_index(0, &bk.sheets[0])?;
+    for s in &bk.sheets[1..] { m.add_sheet(s)?; }
+    for (s, r, c, t) in &bk.cells {
+        if !t.starts_with('=') { m.set_user_input(*s, *r, *c, t.clone())?; }
+    }
+    for (n, sc, f) in &bk.names { m.new_defined_name(n, *sc, f)?; }
+    for (s, r, c, t) in &bk.cells {
+        if t.starts_with('=') { m.set_user_input(*s, *r, *c, t.clone())?; }
+    }
+    m.evaluate();
+    Ok(m)
+}
+
+fn gen_book(rng: &mut Rng, lang: &'static str, locale: &'static str, idx: usize) -> Book {
+    let first_pool = ["Sheet1", "Data", "D'Angelo", "My Sheet", "Año"];
+    let other_pool = ["Second", "Third Sheet", "Q1!", "B2", "Übersicht", "x'y", "Hoja 2", "S.4"];
+    let ns = 2 + rng.below(3) as usize;
+    let mut sheets = vec![first_pool[idx % first_pool.len()].to_string()];
+    while sheets.len() < ns {
+        let c = rng.pick(&other_pool).to_string();
+        if !sheets.contains(&c) { sheets.push(c); }
+    }
+    let lg = get_language(lang).unwrap();
+    let lc = get_locale(locale).unwrap();
+    let sep = if lc.numbers.symbols.decimal == "," { ";" } else { "," };
+    let dec = &lc.numbers.symbols.decimal;
+    let sum = Function::Sum.to_localized_name(lg);
+    let ghosts = ["Ghost", "No Such", "Renamed", "a!b"];
+    let mut cells = vec![];
+    let mut names = vec![];
+    for s in 0..ns as u32 {
+        for r in 1..=3 { for c in 1..=3 { cells.push((s, r, c, format!("{}", (s + 1) * 100 + r as u32 * 10 + c as u32))); } }
+    }
+    // defined names (stored in English; only references and ranges are accepted)
+    let o = rng.below(ns as u64) as usize;
+    names.push(("gname".to_string(), None, format!("{}!$A$1", quote(&sheets[o]))));
+    let o2 = rng.below(ns as u64) as usize;
+    names.push(("grange".to_string(), None, format!("{}!$A$1:$B$2", quote(&sheets[o2]))));
+    let ls = rng.below(ns as u64) as u32;
+    let o3 = rng.below(ns as u64) as usize;
+    names.push(("lname".to_string(), Some(ls), format!("{}!$B$1", quote(&sheets[o3]))));
+    for s in 0..ns {
+        let q = |k: usize| quote(&sheets[k]);
+        let o = (s + 1 + rng.below(ns as u64 - 1) as usize) % ns;
+        let t = rng.below(ns as u64) as usize;
+        let g = rng.pick(&ghosts).to_string();
+        let g2 = rng.pick(&ghosts).to_string();
+        let mut forms: Vec<String> = vec![
+            format!("={}!A1+1", q(o)),
+            format!("={}({}!A1:B2)", sum, q(o)),
+            format!("={}!A1*2", q(s)),
+            "=A1+B2".to_string(),
+            format!("={}!A1", quote(&g)),
+            format!("={}({}!A1:A2)", sum, quote(&g2)),
+            format!("={}({}!A1{}{}!B2)", sum, q(o), sep, q(t)),
+            "=gname+1".to_string(),
+            format!("={}(grange)", sum),
+            "=lname".to_string(),
+            format!("=1{}5*{}!A1", dec, q(o)),
+            format!("={}!A1&\"!\"&\"'q'!A1\"", q(o)),
+            format!("=-({}!A1+{}!A1)^2", q(o), q(t)),
+            format!("={}!$A$1-{}!A$2+{}!$B3", q(o), q(s), q(t)),
+            format!("={}({}!A1:A2{}{}!A1:A2)", sum, quote(&g), sep, q(o)),
+            format!("={}!A1:A2", quote(&g)),
+            format!("=1+({}!A1+{}!A2)", q(o), q(t)),
+        ];
+        // a random subset, at least 8
+        let mut chosen = vec![];
+        while !forms.is_empty() && chosen.len() < 12 {
+            let k = rng.below(forms.len() as u64) as usize;
+            chosen.push(forms.remove(k));
+        }
+        let mut pos = vec![];
+        for c in 4..=COLS { for r in 1..=ROWS { pos.push((r, c)); } }
+        for (k, f) in chosen.into_iter().enumerate() {
+            let (r, c) = pos[k];
+            cells.push((s as u32, r, c, f));
+        }
+        // second layer: reads formula cells of this and another sheet
+        cells.push((s as u32, 5, 6, format!("=D1+{}!D2", q(o))));
+        cells.push((s as u32, 6, 6, format!("={}(D1:E3)", sum)));
+    }
+    Book { lang, locale, sheets, cells, names }
+}
+
+// ---------------------------------------------------------------------------------------------------
+#[derive(Clone, PartialEq)]
+struct CellSnap { node: Option<Node>, value: String, stored: Option<String> }
+#[derive(Clone)]
+struct Snap { names: Vec<String>, cells: Vec<BTreeMap<(i32, i32), CellSnap>>, shared: Vec<Vec<String>>, defs: Vec<(String, Option<u32>, String)> }
+
+fn snap(m: &Model) -> Snap {
+    let mut cells = vec![];
+    let mut shared = vec![];
+    let mut names = vec![];
     for (i, ws) in m.workbook.worksheets.iter().enumerate() {
-        println!(" sheet {i} {:?} shared={:?}", ws.name, ws.shared_formulas);
-        for r in 1..=4 { for c in 1..=6 {
-            if let Ok(Some(f)) = m.get_cell_formula(i as u32, r, c) {
-                println!("   ({r},{c}) {f}  = {:?}", m.get_cell_value_by_index(i as u32, r, c));
+        names.push(ws.name.clone());
+        shared.push(ws.shared_formulas.clone());
+        let mut mp = BTreeMap::new();
+        for r in 1..=ROWS { for c in 1..=COLS {
+            if let Some(cell) = ws.cell(r, c) {
+                let (node, stored) = match cell.get_formula() {
+                    Some(f) => (m.parsed_formulas.get(i).and_then(|v| v.get(f as usize)).map(|x| x.0.clone()), ws.shared_formulas.get(f as usize).cloned()),
+                    None => (None, None),
+                };
+                let value = format!("{:?}", m.get_cell_value_by_index(i as u32, r, c));
+                mp.insert((r, c), CellSnap { node, value, stored });
             }
         } }
+        cells.push(mp);
     }
-    println!(" names {:?}", m.get_defined_name_list());
+    Snap { names, cells, shared, defs: m.workbook.get_defined_names_with_scope() }
+}
+
+fn map_node(n: &Node, f: &dyn Fn(&Node) -> Option<Node>) -> Node {
+    if let Some(x) = f(n) { return x; }
+    use Node::*;
+    let bx = |x: &Box<Node>| Box::new(map_node(x, f));
+    let vs = |v: &Vec<Node>| v.iter().map(|x| map_node(x, f)).collect::<Vec<_>>();
+    match n {
+        OpRangeKind { left, right } => OpRangeKind { left: bx(left), right: bx(right) },
+        OpConcatenateKind { left, right } => OpConcatenateKind { left: bx(left), right: bx(right) },
+        OpSumKind { kind, left, right } => OpSumKind { kind: kind.clone(), left: bx(left), right: bx(right) },
+        OpProductKind { kind, left, right } => OpProductKind { kind: kind.clone(), left: bx(left), right: bx(right) },
+        OpPowerKind { left, right } => OpPowerKind { left: bx(left), right: bx(right) },
+        CompareKind { kind, left, right } => CompareKind { kind: kind.clone(), left: bx(left), right: bx(right) },
+        FunctionKind { kind, args } => FunctionKind { kind: kind.clone(), args: vs(args) },
+        NamedFunctionKind { id, name, args } => NamedFunctionKind { id: *id, name: name.clone(), args: vs(args) },
+        LambdaDefKind { parameters, body } => LambdaDefKind { parameters: parameters.clone(), body: bx(body) },
+        LambdaCallKind { lambda, args } => LambdaCallKind { lambda: bx(lambda), args: vs(args) },
+        UnaryKind { kind, right } => UnaryKind { kind: kind.clone(), right: bx(right) },
+        ImplicitIntersection { automatic, child } => ImplicitIntersection { automatic: *automatic, child: bx(child) },
+        SpillRangeOperator { child } => SpillRangeOperator { child: bx(child) },
+        other => other.clone(),
+    }
+}
+fn any_node(n: &Node, p: &dyn Fn(&Node) -> bool) -> bool {
+    let found = std::cell::Cell::new(false);
+    map_node(n, &|x| { if p(x) { found.set(true); } None });
+    found.get()
+}
+
+/// the pass as the property states it: only references / ranges that resolve to sheet `i` and
+/// carry a name get the new name
+fn spec_pass(n: &Node, i: u32, new: &str) -> Node {
+    map_node(n, &|x| match x {
+        Node::ReferenceKind { sheet_name: Some(_), sheet_index, absolute_row, absolute_column, row, column } if *sheet_index == i =>
+            Some(Node::ReferenceKind { sheet_name: Some(new.to_string()), sheet_index: *sheet_index, absolute_row: *absolute_row, absolute_column: *absolute_column, row: *row, column: *column }),
+        Node::RangeKind { sheet_name: Some(_), sheet_index, absolute_row1, absolute_column1, row1, column1, absolute_row2, absolute_column2, row2, column2 } if *sheet_index == i =>
+            Some(Node::RangeKind { sheet_name: Some(new.to_string()), sheet_index: *sheet_index, absolute_row1: *absolute_row1, absolute_column1: *absolute_column1, row1: *row1, column1: *column1,
+                absolute_row2: *absolute_row2, absolute_column2: *absolute_column2, row2: *row2, column2: *column2 }),
+        _ => None,
+    })
+}
+/// references are by name: what the tree is once every name is looked up in `sheets` (formula on sheet `ctx`)
+fn resolve(n: &Node, sheets: &[String], ctx: u32) -> Node {
+    let find = |s: &Option<String>| -> Option<u32> { match s { Some(nm) => sheets.iter().position(|x| x == nm).map(|x| x as u32), None => Some(ctx) } };
+    map_node(n, &|x| match x {
+        Node::ReferenceKind { sheet_name, absolute_row, absolute_column, row, column, .. } | Node::WrongReferenceKind { sheet_name, absolute_row, absolute_column, row, column } =>
+            Some(match find(sheet_name) {
+                Some(k) => Node::ReferenceKind { sheet_name: sheet_name.clone(), sheet_index: k, absolute_row: *absolute_row, absolute_column: *absolute_column, row: *row, column: *column },
+                None => Node::WrongReferenceKind { sheet_name: sheet_name.clone(), absolute_row: *absolute_row, absolute_column: *absolute_column, row: *row, column: *column },
+            }),
+        Node::RangeKind { sheet_name, absolute_row1, absolute_column1, row1, column1, absolute_row2, absolute_column2, row2, column2, .. }
+        | Node::WrongRangeKind { sheet_name, absolute_row1, absolute_column1, row1, column1, absolute_row2, absolute_column2, row2, column2 } =>
+            Some(match find(sheet_name) {
+                Some(k) => Node::RangeKind { sheet_name: sheet_name.clone(), sheet_index: k, absolute_row1: *absolute_row1, absolute_column1: *absolute_column1, row1: *row1, column1: *column1,
+                    absolute_row2: *absolute_row2, absolute_column2: *absolute_column2, row2: *row2, column2: *column2 },
+                None => Node::WrongRangeKind { sheet_name: sheet_name.clone(), absolute_row1: *absolute_row1, absolute_column1: *absolute_column1, row1: *row1, column1: *column1,
+                    absolute_row2: *absolute_row2, absolute_column2: *absolute_column2, row2: *row2, column2: *column2 },
+            }),
+        // the formula text carried by a defined-name node follows the defined name: not compared
+        Node::DefinedNameKind((a, _, _)) => Some(Node::DefinedNameKind((a.clone(), None, String::new()))),
+        _ => None,
+    })
+}
+fn strip_defs(n: &Node) -> Node {
+    map_node(n, &|x| match x { Node::DefinedNameKind((a, _, _)) => Some(Node::DefinedNameKind((a.clone(), None, String::new()))), _ => None })
+}
+fn has_ghost_range(n: &Node) -> bool { any_node(n, &|x| matches!(x, Node::WrongRangeKind { sheet_name: Some(_), .. })) }
+fn has_ghost_named(n: &Node, name: &str) -> bool {
+    any_node(n, &|x| matches!(x, Node::WrongRangeKind { sheet_name: Some(s), .. } | Node::WrongReferenceKind { sheet_name: Some(s), .. } if s == name))
+}
+fn reads_sheet_text(n: &Node) -> bool {
+    any_node(n, &|x| matches!(x, Node::FunctionKind { kind, .. } if matches!(kind, Function::Sheet | Function::Sheets | Function::Formulatext | Function::Cell)))
+}
+
+/// does the stored text survive "parse with the user's locale and language, print in the stored form"?
+fn stored_ok_in_user_locale(text: &str, sheets: &[String], ctx: &str, defs: &[(String, Option<u32>, String)], lc: &'static Locale, lg: &'static Language) -> bool {
+    let mut p = Parser::new(sheets.to_vec(), defs.to_vec(), HashMap::new(), lc, lg);
+    p.set_lexer_mode(LexerMode::R1C1);
+    let t = p.parse(text, &CellReferenceRC { sheet: ctx.to_string(), row: 1, column: 1 });
+    if matches!(t, Node::ParseErrorKind { .. }) { return false; }
+    let en = Parser::new(sheets.to_vec(), defs.to_vec(), HashMap::new(), get_locale("en").unwrap(), get_language("en").unwrap());
+    let mut en = en; en.set_lexer_mode(LexerMode::R1C1);
+    let t2 = en.parse(text, &CellReferenceRC { sheet: ctx.to_string(), row: 1, column: 1 });
+    let t3 = en.parse(&to_rc_format(&t), &CellReferenceRC { sheet: ctx.to_string(), row: 1, column: 1 });
+    t2 == t3
+}
+
+/// cells a formula reads (clipped to the generated block), through defined names
+fn reads(n: &Node, home: (u32, i32, i32), defs: &HashMap<String, Vec<(Option<u32>, Node)>>, out: &std::cell::RefCell<BTreeSet<(u32, i32, i32)>>, depth: u32) {
+    map_node(n, &|x| {
+        match x {
+            Node::ReferenceKind { sheet_index, absolute_row, absolute_column, row, column, .. } => {
+                let r = if *absolute_row { *row } else { *row + home.1 };
+                let c = if *absolute_column { *column } else { *column + home.2 };
+                out.borrow_mut().insert((*sheet_index, r, c));
+            }
+            Node::RangeKind { sheet_index, absolute_row1, absolute_column1, row1, column1, absolute_row2, absolute_column2, row2, column2, .. } => {
+                let r1 = if *absolute_row1 { *row1 } else { *row1 + home.1 };
+                let c1 = if *absolute_column1 { *column1 } else { *column1 + home.2 };
+                let r2 = if *absolute_row2 { *row2 } else { *row2 + home.1 };
+                let c2 = if *absolute_column2 { *column2 } else { *column2 + home.2 };
+                for r in r1.min(r2).max(1)..=r1.max(r2).min(ROWS + 2) { for c in c1.min(c2).max(1)..=c1.max(c2).min(COLS + 2) { out.borrow_mut().insert((*sheet_index, r, c)); } }
+            }
+            Node::DefinedNameKind((name, scope, _)) if depth < 3 => {
+                if let Some(v) = defs.get(&name.to_lowercase()) {
+                    for (sc, node) in v { if sc == scope { reads(node, (home.0, 1, 1), defs, out, depth + 1); } }
+                }
+            }
+            _ => {}
+        }
+        None
+    });
+}
+
+fn parse_defs(s: &Snap) -> HashMap<String, Vec<(Option<u32>, Node)>> {
+    let mut out: HashMap<String, Vec<(Option<u32>, Node)>> = HashMap::new();
+    let mut p = Parser::new(s.names.clone(), s.defs.clone(), HashMap::new(), get_locale("en").unwrap(), get_language("en").unwrap());
+    for (n, sc, f) in &s.defs {
+        let node = p.parse(f, &CellReferenceRC { sheet: s.names[0].clone(), row: 1, column: 1 });
+        out.entry(n.to_lowercase()).or_default().push((*sc, node));
+    }
+    out
+}
+
+struct Run<'a> { cs: Cases, or: Oracle, fns: &'a Fns, dist: BTreeMap<String, u64>, samples: Vec<String>, distinct: std::collections::HashSet<String> }
+
+impl<'a> Run<'a> {
+    fn bump(&mut self, k: &str) { *self.dist.entry(k.to_string()).or_insert(0) += 1; }
+    fn env_lines(&mut self, tag: &str, s: &Snap) {
+        self.cs.case(&format!("{tag} clear"), "ok");
+        for n in &s.names { self.cs.case(&format!("{tag} sheet {}", wire(n)), "ok"); }
+        for (n, sc, f) in &s.defs {
+            self.cs.case(&format!("{tag} def {} {} {}", wire(n), match sc { Some(i) => format!("{i}"), None => "-1".into() }, wire(f)), "ok");
+        }
+    }
+
+    /// compare trees and values of the cells that exist before with the cells `place` maps them to
+    #[allow(clippy::too_many_arguments)]
+    fn oracle(&mut self, op: &str, bk: &Book, before: &Snap, after: &Snap, place: &dyn Fn(u32) -> u32, pass: &dyn Fn(&Node, u32) -> Node,
+              captured: &str, input: &serde_json::Value, only_sheet: Option<(u32, u32)>) {
+        let lc = get_locale(bk.locale).unwrap();
+        let lg = get_language(bk.lang).unwrap();
+        let defs = parse_defs(before);
+        // roots of legitimate / known value changes, by class
+        let mut taint: BTreeMap<(u32, i32, i32), String> = BTreeMap::new();
+        let mut readmap: BTreeMap<(u32, i32, i32), BTreeSet<(u32, i32, i32)>> = BTreeMap::new();
+        let sheets_iter: Vec<(u32, u32)> = match only_sheet { Some((s, t)) => vec![(s, t)], None => (0..before.names.len() as u32).map(|s| (s, place(s))).collect() };
+        for (s, s_after) in &sheets_iter {
+            for ((r, c), cell) in &before.cells[*s as usize] {
+                let Some(node) = &cell.node else { continue };
+                let rd = std::cell::RefCell::new(BTreeSet::new());
+                reads(node, (*s, *r, *c), &defs, &rd, 0);
+                readmap.insert((*s, *r, *c), rd.into_inner());
+                self.or.checked += 1;
+                let expected = resolve(&pass(node, *s), &after.names, *s_after);
+                let got = after.cells[*s_after as usize].get(&(*r, *c)).and_then(|x| x.node.clone());
+                let same = got.as_ref().map(|g| strip_defs(g) == expected).unwrap_or(false);
+                if reads_sheet_text(node) { taint.insert((*s, *r, *c), "skip".into()); }
+                if !captured.is_empty() && has_ghost_named(node, captured) { taint.insert((*s, *r, *c), "skip".into()); }
+                if !same {
+                    let stored = cell.stored.clone().unwrap_or_default();
+                    let class = if (bk.lang != "en" || bk.locale != "en") && !stored_ok_in_user_locale(&stored, &before.names, &before.names[*s as usize], &before.defs, lc, lg) {
+                        "stored_formula_parsed_in_user_locale"
+                    } else if op == "rename_undo" && !captured.is_empty() && has_ghost_named(node, captured) { "dangling_reference_captured_by_new_name" }
+                    else if has_ghost_range(node) && op != "move" { "ghost_range_renamed" }
+                    else { "tree_changed_beyond_target" };
+                    taint.insert((*s, *r, *c), class.to_string());
+                    let d = format!("{op}: sheet {s} cell ({r},{c}) stored {:?}: expected [{}] got [{}]", stored, dump_s(&expected, self.fns),
+                        got.as_ref().map(|g| dump_s(g, self.fns)).unwrap_or("none".into()));
+                    self.or.fail(&format!("{class}:{op}"), json!({"op": input, "sheet": s, "cell": [r, c], "stored": stored, "lang": bk.lang, "locale": bk.locale}), d);
+                }
+            }
+        }
+        // defined names whose tree is wrong taint their readers: handled by value propagation below through `defs_bad`
+        // propagate
+        loop {
+            let mut changed = false;
+            for (k, rd) in &readmap {
+                if taint.contains_key(k) { continue; }
+                if let Some(c) = rd.iter().find_map(|x| taint.get(x)) { let c = c.clone(); taint.insert(*k, c); changed = true; }
+            }
+            if !changed { break; }
+        }
+        for (s, s_after) in &sheets_iter {
+            for ((r, c), cell) in &before.cells[*s as usize] {
+                self.or.checked += 1;
+                let got = after.cells[*s_after as usize].get(&(*r, *c)).map(|x| x.value.clone()).unwrap_or("absent".into());
+                if got != cell.value {
+                    match taint.get(&(*s, *r, *c)).map(|x| x.as_str()) {
+                        Some("skip") => { self.bump("value_change_excluded"); }
+                        Some(class) => {
+                            let cl = format!("value_changed_by_{class}:{op}");
+                            self.or.fail(&cl, json!({"op": input, "sheet": s, "cell": [r, c], "before": cell.value, "after": got, "stored": cell.stored}),
+                                format!("{op}: value of sheet {s} ({r},{c}) {:?} changed {} -> {}", cell.stored, cell.value, got));
+                        }
+                        None => {
+                            self.or.fail(&format!("value_changed:{op}"), json!({"op": input, "sheet": s, "cell": [r, c], "before": cell.value, "after": got, "stored": cell.stored, "lang": bk.lang, "locale": bk.locale}),
+                                format!("{op}: value of sheet {s} ({r},{c}) {:?} changed {} -> {}", cell.stored, cell.value, got));
+                        }
+                    }
+                }
+            }
+        }
+    }
+
+    fn tie_formulas(&mut self, kind: &str, bk: &Book, before: &Snap, after: &Snap, src_sheets: &[(u32, u32)], i: u32, new: &str) {
+        let lc = get_locale(bk.locale).unwrap();
+        let lg = get_language(bk.lang).unwrap();
+        let en_lc = get_locale("en").unwrap();
+        let en_lg = get_language("en").unwrap();
+        let dot = lc.numbers.symbols.decimal == ".";
+        let mut en = Parser::new(after.names.clone(), after.defs.clone(), HashMap::new(), en_lc, en_lg);
+        en.set_lexer_mode(LexerMode::R1C1);
+        for (s, s_after) in src_sheets {
+            for (k, text) in before.shared[*s as usize].iter().enumerate() {
+                // tokens as the parser of rename_sheet_by_index / duplicate_sheet sees them
+                let toks = tokens(text, true, lc, lg);
+                if toks.iter().any(|t| t == "X") { continue; }
+                // booleans are spelled differently per language and lex differently; not generated
+                let Some(text_after) = after.shared[*s_after as usize].get(k) else { continue };
+                let toks_after = tokens(text_after, true, en_lc, en_lg);
+                // a formula the user-locale parser rejects keeps its text
+                let mut up = Parser::new(before.names.clone(), before.defs.clone(), HashMap::new(), lc, lg);
+                up.set_lexer_mode(LexerMode::R1C1);
+                let failed = matches!(up.parse(text, &CellReferenceRC { sheet: before.names[*s as usize].clone(), row: 1, column: 1 }), Node::ParseErrorKind { .. });
+                if failed && text_after != text {
+                    self.or.fail("unparsed_formula_rewritten", json!({"text": text, "after": text_after}), format!("{text} -> {text_after}"));
+                }
+                let node_after = en.parse(text_after, &CellReferenceRC { sheet: after.names[*s_after as usize].clone(), row: 1, column: 1 });
+                self.cs.case(
+                    &format!("{kind} {} {} {} {} {} {}", bk.lang, b(dot), s, i, wire(new), toks.join(" ")),
+                    &if failed { "unchanged | -".to_string() } else { format!("{} | {}", toks_after.join(" "), dump_s(&node_after, self.fns)) });
+                self.distinct.insert(format!("{kind} {} {}", text, text_after));
+                if self.samples.len() < 12 && self.cs.n % 211 == 7 { self.samples.push(format!("{kind} {}/{} sheet {s} rename {i}->{new:?}: {text} => {text_after}", bk.lang, bk.locale)); }
+            }
+        }
+    }
+}
+
+fn tables(cs: &mut Cases, fns: &Fns) {
+    for lang in LANGS {
+        let g = get_language(lang).unwrap();
+        let en_loc = get_locale("en").unwrap();
+        for (i, f) in fns.all.iter().enumerate() { cs.case(&format!("T fn {lang} {i} {}", wire(&f.to_localized_name(g))), "ok"); }
+        for (i, e) in ERRORS.iter().enumerate() {
+            let toks = tokens(&format!("{e}"), false, en_loc, g);
+            cs.case(&format!("T err {lang} {i} {}", toks.join(" ")), "ok");
+        }
+        cs.case(&format!("T bool {lang} {} {}", wire(&g.booleans.r#true.to_uppercase()), wire(&g.booleans.r#false.to_uppercase())), "ok");
+    }
+    cs.case(&format!("T tf {} {}", fns.idx(&Function::True), fns.idx(&Function::False)), "ok");
 }
 
 fn main() {
-    let lang = std::env::args().nth(1).unwrap_or("en".into());
-    let loc = std::env::args().nth(2).unwrap_or("en".into());
-    let mut m = Model::new_empty("b", &loc, "UTC", &lang).unwrap();
-    m.add_sheet("Second").unwrap();
-    m.add_sheet("Third").unwrap();
-    for s in 0..3 { for r in 1..=3 { for c in 1..=2 { m.set_user_input(s, r, c, format!("{}", (s + 1) * 100 + (r as u32) * 10 + c as u32)).unwrap(); } } }
-    let sep = if loc == "en" { "," } else { ";" };
-    let sum = match lang.as_str() { "es" => "SUMA", "de" => "SUMME", "fr" => "SOMME", _ => "SUM" };
-    m.set_user_input(0, 1, 4, format!("={sum}(Ghost!A1:A2)")).unwrap();
-    m.set_user_input(0, 2, 4, "=Ghost!A1".to_string()).unwrap();
-    m.set_user_input(0, 3, 4, format!("={sum}(Second!A1:A2{sep}Third!A1)")).unwrap();
-    m.set_user_input(0, 4, 4, "=Sheet1!A1+'Second'!B2".to_string()).unwrap();
-    println!("{:?}", m.new_defined_name("gname", None, "=Second!$A$1"));
-    println!("{:?}", m.new_defined_name("gname2", None, "Second!$A$1:$A$2"));
-    println!("{:?}", m.new_defined_name("lname", Some(1), "=Third!$B$1"));
-    m.set_user_input(0, 1, 5, "=gname+1".to_string()).unwrap();
-    m.set_user_input(0, 2, 5, format!("={sum}(gname2)")).unwrap();
-    m.set_user_input(1, 1, 5, "=lname".to_string()).unwrap();
-    m.evaluate();
-    show(&m, "before");
-    let mut a = Model::from_bytes(&m.to_bytes(), &lang).unwrap();
-    a.evaluate();
-    println!("rename Third -> Renamed: {:?}", a.rename_sheet_by_index(2, "Renamed"));
-    show(&a, "after rename of Third");
-    let mut a = Model::from_bytes(&m.to_bytes(), &lang).unwrap();
-    println!("rename Second -> It's !A1: {:?}", a.rename_sheet_by_index(1, "It's !A1"));
-    show(&a, "after rename of Second");
-    let mut a = Model::from_bytes(&m.to_bytes(), &lang).unwrap();
-    println!("move 0 -> 2: {:?}", a.move_sheet(0, 2));
-    show(&a, "after move");
-    let mut a = Model::from_bytes(&m.to_bytes(), &lang).unwrap();
-    println!("dup 0: {:?}", a.duplicate_sheet(0));
-    show(&a, "after dup 0");
-    let mut a = Model::from_bytes(&m.to_bytes(), &lang).unwrap();
-    println!("dup 1: {:?}", a.duplicate_sheet(1));
-    show(&a, "after dup 1");
-    // undo of rename
-    let mut u = UserModel::from_model(Model::from_bytes(&m.to_bytes(), &lang).unwrap());
-    u.rename_sheet(2, "Renamed").unwrap();
-    u.undo().unwrap();
-    show(u.get_model(), "rename + undo");
+    let a = Args::parse();
+    let fns = Fns::new();
+    let mut run = Run { cs: Cases::new(&a.out, "c17"), or: Oracle::default(), fns: &fns, dist: BTreeMap::new(), samples: vec![], distinct: Default::default() };
+    tables(&mut run.cs, &fns);
+    let mut rng = Rng::new(a.seed);
+    let pool = name_pool();
+    let configs: Vec<(&'static str, &'static str)> = if a.thorough {
+        let mut v = vec![];
+        for l in LANGS { for lc in ["en", "en-GB", "de", "es", "fr", "it"] { v.push((l, lc)); } }
+        v
+    } else {
+        vec![("en", "en"), ("en", "en"), ("en", "en"), ("es", "es"), ("de", "de"), ("en", "fr"), ("fr", "en"), ("it", "it")]
+    };
+    let nbooks = if a.thorough { 60 } else { configs.len() };
+    for bi in 0..nbooks {
+        let (lang, locale) = configs[bi % configs.len()];
+        let bk = gen_book(&mut rng, lang, locale, bi);
+        let base = match build(&bk) { Ok(m) => m, Err(e) => { run.or.fail("harness_book_rejected", json!({"sheets": bk.sheets, "err": e}), e.clone()); continue; } };
+        let bytes = base.to_bytes();
+        // the state every operation starts from is the RELOADED workbook (what reloading changes is C09's)
+        let before = { let mut m0 = Model::from_bytes(&bytes, lang).unwrap(); m0.evaluate(); snap(&m0) };
+        drop(base);
+        run.bump(&format!("books/{lang}/{locale}"));
+        run.env_lines("E0", &before);
+        let ns = before.names.len() as u32;
+        let fresh = |lang: &'static str| -> Model<'static> { let mut m = Model::from_bytes(&bytes, lang).unwrap(); m.evaluate(); m };
+        // the reload itself must not change anything (C09 owns that; guard for the oracle)
+        {
+            let m = fresh(lang);
+            let s2 = snap(&m);
+            for s in 0..ns as usize { for (k, c) in &before.cells[s] { if s2.cells[s].get(k).map(|x| &x.value) != Some(&c.value) { run.bump("reload_changes_value"); } } }
+        }
+
+        // ---- rename: every sheet x pool (quick: a rotating third of the pool per sheet, all tricky ones over the run)
+        for i in 0..ns {
+            for (pi, new) in pool.iter().enumerate() {
+                if !a.thorough && (pi + i as usize + bi) % 3 != 0 && bi >= 3 { continue; }
+                let mut m = fresh(lang);
+                let res = m.rename_sheet_by_index(i, new);
+                let input = json!({"op": "rename", "sheets": before.names, "index": i, "new": new, "lang": lang, "locale": locale});
+                run.cs.case(&format!("V {} {}", i, wire(new)), if res.is_ok() { "ok" } else { "err" });
+                run.bump(if res.is_ok() { "rename_ok" } else { "rename_err" });
+                let after = snap(&m);
+                if res.is_err() {
+                    run.or.checked += 1;
+                    if after.names != before.names || after.shared != before.shared || after.defs != before.defs {
+                        run.or.fail("failed_rename_changes_workbook", input.clone(), format!("rename {i} -> {new:?} failed but changed the workbook"));
+                    }
+                    continue;
+                }
+                run.or.checked += 1;
+                if after.names[i as usize] != *new { run.or.fail("rename_name_not_set", input.clone(), format!("sheet {i} is called {:?}", after.names[i as usize])); }
+                run.oracle("rename", &bk, &before, &after, &|s| s, &|n, _| spec_pass(n, i, new), new, &input, None);
+                // defined names: trees by the same rule
+                let mut pa = Parser::new(after.names.clone(), after.defs.clone(), HashMap::new(), get_locale("en").unwrap(), get_language("en").unwrap());
+                let mut pb = Parser::new(before.names.clone(), before.defs.clone(), HashMap::new(), get_locale("en").unwrap(), get_language("en").unwrap());
+                for (k, (n0, sc0, f0)) in before.defs.iter().enumerate() {
+                    run.or.checked += 1;
+                    let nb = pb.parse(f0, &CellReferenceRC { sheet: before.names[0].clone(), row: 1, column: 1 });
+                    let exp = resolve(&spec_pass(&nb, i, new), &after.names, 0);
+                    let ok = after.defs.get(k).map(|(n1, sc1, f1)| n1 == n0 && sc1 == sc0 && strip_defs(&pa.parse(f1, &CellReferenceRC { sheet: after.names[0].clone(), row: 1, column: 1 })) == exp).unwrap_or(false);
+                    if !ok { run.or.fail("defined_name_not_renamed", json!({"op": input, "name": n0, "before": f0, "after": after.defs.get(k)}), format!("defined name {n0}: {f0} -> {:?}", after.defs.get(k))); }
+                }
+                run.env_lines("E1", &after);
+                let all: Vec<(u32, u32)> = (0..ns).map(|s| (s, s)).collect();
+                run.tie_formulas("R", &bk, &before, &after, &all, i, new);
+                // undo restores (UserModel), redo re-applies
+                if (pi + bi) % 7 == 0 {
+                    let mut u = UserModel::from_model(fresh(lang));
+                    if u.rename_sheet(i, new).is_ok() && after.names[i as usize] != before.names[i as usize] {
+                        let _ = u.undo();
+                        let back = snap(u.get_model());
+                        run.or.checked += 1;
+                        if back.names != before.names { run.or.fail("undo_rename_name", input.clone(), format!("names after undo {:?}", back.names)); }
+                        run.oracle("rename_undo", &bk, &before, &back, &|s| s, &|n, _| n.clone(), new, &input, None);
+                    }
+                }
+            }
+        }
+        // ---- move: all (i, j) incl. out of range
+        for i in 0..=ns { for j in 0..=ns {
+            let mut m = fresh(lang);
+            let res = m.move_sheet(i, j);
+            let after = snap(&m);
+            let input = json!({"op": "move", "sheets": before.names, "from": i, "to": j, "lang": lang, "locale": locale});
+            run.cs.case(&format!("M {} {}", i, j), &if res.is_ok() { format!("ok {}", after.names.iter().map(|x| wire(x)).collect::<Vec<_>>().join(" ")) } else { "err".to_string() });
+            run.bump(if res.is_ok() { "move_ok" } else { "move_err" });
+            if res.is_err() {
+                run.or.checked += 1;
+                if after.names != before.names { run.or.fail("failed_move_changes_workbook", input.clone(), "failed move changed the order".into()); }
+                continue;
+            }
+            let place = |s: u32| after.names.iter().position(|x| *x == before.names[s as usize]).unwrap() as u32;
+            run.oracle("move", &bk, &before, &after, &place, &|n, _| n.clone(), "", &input, None);
+        } }
+        // ---- duplicate: every sheet
+        for s in 0..ns {
+            let mut m = fresh(lang);
+            let res = m.duplicate_sheet(s);
+            let after = snap(&m);
+            let input = json!({"op": "duplicate", "sheets": before.names, "source": s, "lang": lang, "locale": locale});
+            run.bump("duplicate");
+            let Ok((new_name, new_index)) = res else { run.or.fail("duplicate_failed", input.clone(), "duplicate_sheet failed".into()); continue; };
+            run.or.checked += 1;
+            if new_index != s + 1 || after.names.get(new_index as usize) != Some(&new_name) || before.names.contains(&new_name) {
+                run.or.fail("duplicate_placement", input.clone(), format!("copy {new_name:?} at {new_index}, names {:?}", after.names));
+            }
+            // the existing sheets keep trees and values
+            let place = |k: u32| if k <= s { k } else { k + 1 };
+            run.oracle("duplicate_others", &bk, &before, &after, &place, &|n, _| n.clone(), "", &input, None);
+            // the copy: the source's trees with references to the source retargeted; values of formulas
+            // that do not depend on the sheet they are on are the same
+            run.oracle("duplicate_copy", &bk, &before, &after, &|k| k, &|n, _| spec_pass(n, s, &new_name), "", &input, Some((s, new_index)));
+            run.env_lines("E1", &after);
+            run.tie_formulas("D", &bk, &before, &after, &[(s, new_index)], s, &new_name);
+        }
+    }
+    let Run { cs, or, dist, samples, distinct, .. } = run;
+    cs.finish(json!({
+        "oracle_checked": or.checked,
+        "oracle_failures": or.failures,
+        "oracle_failures_per_class": or.per_class,
+        "distinct_nontrivial": distinct.len(),
+        "distribution": dist,
+        "samples": samples,
+    }));
 }
